@@ -287,7 +287,23 @@ func (p *Program) lifecycle() *lifecycle {
 	}
 	// context fields: zombie (bool stored true in HandleRestart), restarting (pointer stored nil in HandleRestart)
 	if lc.HandleRestart != nil {
+		// the restart step or a helper of the same handler it calls (the zombie branch may be extracted)
+		scan := []*ssa.Function{lc.HandleRestart}
 		for _, b := range lc.HandleRestart.Blocks {
+			for _, in := range b.Instrs {
+				if c := callOf(in); c != nil && c.StaticCallee() != nil && c.StaticCallee().Signature.Recv() != nil && lc.HandleRestart.Signature.Recv() != nil &&
+					namedOf(c.StaticCallee().Signature.Recv().Type()) == namedOf(lc.HandleRestart.Signature.Recv().Type()) {
+					scan = append(scan, c.StaticCallee())
+				}
+			}
+		}
+		var all []ssa.Instruction
+		for _, sf := range scan {
+			for _, b := range sf.Blocks {
+				all = append(all, b.Instrs...)
+			}
+		}
+		for _, b := range []struct{ Instrs []ssa.Instruction }{{all}} {
 			for _, in := range b.Instrs {
 				if s, ok := in.(*ssa.Store); ok {
 					f, _ := fieldAddr(s.Addr)
@@ -502,38 +518,52 @@ func lcProgram(lc *lifecycle) *Program {
 	return nil
 }
 
-// cleanupScore counts the distinct termination effects a chain step performs.
+// cleanupScore counts the distinct termination effects a chain step performs, itself or through helpers on the same receiver
+// type that it calls (a step split into `releaseIdentity()` + `notifyTermination()` is still the clean-up step).
 func cleanupScore(f *ssa.Function) int {
 	seen := map[string]bool{}
-	for _, b := range f.Blocks {
-		for _, in := range b.Instrs {
-			c := callOf(in)
-			if c == nil {
-				continue
-			}
-			if c.IsInvoke() {
-				switch c.Method.Name() {
-				case "UnsubscribeAll", "Publish", "Resume":
-					seen[c.Method.Name()] = true
+	visited := map[*ssa.Function]bool{}
+	var scan func(g *ssa.Function, depth int)
+	scan = func(g *ssa.Function, depth int) {
+		if visited[g] || depth > 2 {
+			return
+		}
+		visited[g] = true
+		for _, b := range g.Blocks {
+			for _, in := range b.Instrs {
+				c := callOf(in)
+				if c == nil {
+					continue
 				}
-				continue
-			}
-			cal := c.StaticCallee()
-			if cal == nil {
-				continue
-			}
-			for _, bb := range cal.Blocks {
-				for _, i2 := range bb.Instrs {
-					if calleeQual(callOf(i2)) == "(sync.Map).Delete" {
-						seen["registry-delete"] = true
+				if c.IsInvoke() {
+					switch c.Method.Name() {
+					case "UnsubscribeAll", "Publish", "Resume":
+						seen[c.Method.Name()] = true
+					}
+					continue
+				}
+				cal := c.StaticCallee()
+				if cal == nil {
+					continue
+				}
+				for _, bb := range cal.Blocks {
+					for _, i2 := range bb.Instrs {
+						if calleeQual(callOf(i2)) == "(sync.Map).Delete" {
+							seen["registry-delete"] = true
+						}
 					}
 				}
-			}
-			if len(cal.Params) == 4 && isBool(cal.Params[1].Type()) {
-				seen["tell"] = true
+				if len(cal.Params) == 4 && isBool(cal.Params[1].Type()) {
+					seen["tell"] = true
+				}
+				// a helper of the same handler
+				if f.Signature.Recv() != nil && cal.Signature.Recv() != nil && namedOf(cal.Signature.Recv().Type()) == namedOf(f.Signature.Recv().Type()) && namedOf(cal.Signature.Recv().Type()) != nil {
+					scan(cal, depth+1)
+				}
 			}
 		}
 	}
+	scan(f, 0)
 	return len(seen)
 }
 
